@@ -364,6 +364,9 @@ private:
     //! Delay after song playd before rejecting the output stream requests
     double m_postSongWaitDelay;
 
+    //! The song has a valid loop start marker of its own (otherwise the song begin is the loop start)
+    bool m_loopStartExplicit;
+
     //! Global loop start time
     double m_loopStartTime;
     //! Global loop end time
